@@ -15,10 +15,10 @@ end Arp
 namespace Arp.C10
 open Arp
 
-/-- `scale(k, rm)` returns the value times `2^k` rounded once under `rm`, for every `k : Int`. -/
-theorem scale_correct (x : Flt) (k : Int) (rm : RM) (hF : x.sem.WF) (hc : x.Canonical) :
-    (x.scale k rm).toRes = Spec.scaleExact rm k x := by
-  unfold Flt.scale Spec.scaleExact Flt.isNormal
+/-- the unclamped core of `scale`: the value times `2^k` rounded once under `rm`, for every `k : Int`. -/
+theorem scaleCore_correct (x : Flt) (k : Int) (rm : RM) (hF : x.sem.WF) (hc : x.Canonical) :
+    (x.scaleCore k rm).toRes = Spec.scaleExact rm k x := by
+  unfold Flt.scaleCore Spec.scaleExact Flt.isNormal
   cases hx : x.cat
   · simp [Flt.toRes, hx]
   · simp [Flt.toRes, hx]
@@ -31,13 +31,13 @@ theorem scale_correct (x : Flt) (k : Int) (rm : RM) (hF : x.sem.WF) (hc : x.Cano
   · simp [Flt.toRes, hx]
 
 /-- the largest FP16 value scaled far below the subnormal range -/
-example : ((⟨FP16, false, 15, 2047, .normal⟩ : Flt).scale (-40) .pos).toRes
+example : ((⟨FP16, false, 15, 2047, .normal⟩ : Flt).scaleCore (-40) .pos).toRes
     = Spec.scaleExact .pos (-40) ⟨FP16, false, 15, 2047, .normal⟩ :=
-  scale_correct _ _ _ (by decide) (by decide)
+  scaleCore_correct _ _ _ (by decide) (by decide)
 
 /-- Non-normal operands are returned unchanged. -/
 theorem scale_special (x : Flt) (k : Int) (rm : RM) (hx : x.cat ≠ .normal) : x.scale k rm = x := by
-  unfold Flt.scale Flt.isNormal
+  unfold Flt.scale Flt.scaleCore Flt.isNormal
   cases h : x.cat <;> simp_all
 
 example : (⟨FP16, true, 0, 0, .zero⟩ : Flt).scale 5 .nte = ⟨FP16, true, 0, 0, .zero⟩ :=
@@ -62,6 +62,87 @@ theorem mag_bounds (x : Flt) (hx : x.cat = .normal) (hc : x.Canonical) :
       _ = (2 : ℚ) ^ (x.exp + 1) := by
           rw [← zpow_natCast, ← zpow_add₀ (by norm_num : (2 : ℚ) ≠ 0)]; congr 1; ring
       _ ≤ (2 : ℚ) ^ (x.sem.emax + 1) := zpow_le_zpow_right₀ (by norm_num) (by omega)
+
+/-- Clamping `k` to `±B` for any `B ≥ emax - emin + p + 1` does not change `x · 2^k` rounded once:
+    beyond that amount both sides are the same deep overflow / deep underflow. -/
+theorem scaleExact_clamp (x : Flt) (k B : Int) (rm : RM) (hF : x.sem.WF) (hc : x.Canonical)
+    (hB : x.sem.scaleSpan ≤ B) :
+    Spec.scaleExact rm (max (-B) (min B k)) x = Spec.scaleExact rm k x := by
+  unfold Spec.scaleExact
+  cases hx : x.cat <;> simp only
+  obtain ⟨hlo, hhi⟩ := mag_bounds x hx hc
+  have hmpos : 0 < x.mag := lt_of_lt_of_le (by positivity) hlo
+  unfold Sem.scaleSpan at hB
+  have hp1 : 1 ≤ (x.sem.p : Int) := by have := hF.2; omega
+  have huge : ∀ j : Int, B ≤ j → (2 : ℚ) ^ (x.sem.emax + 1) ≤ x.mag * (2 : ℚ) ^ j := by
+    intro j hj
+    calc (2 : ℚ) ^ (x.sem.emax + 1)
+        ≤ (2 : ℚ) ^ (x.sem.emin - ((x.sem.p : Int) - 1) + j) :=
+          zpow_le_zpow_right₀ (by norm_num) (by omega)
+      _ = (2 : ℚ) ^ (x.sem.emin - ((x.sem.p : Int) - 1)) * (2 : ℚ) ^ j :=
+          zpow_add₀ (by norm_num) _ _
+      _ ≤ x.mag * (2 : ℚ) ^ j := mul_le_mul_of_nonneg_right hlo (by positivity)
+  have tiny : ∀ j : Int, j ≤ -B →
+      x.mag * (2 : ℚ) ^ j < (2 : ℚ) ^ (x.sem.emin - (x.sem.p : Int)) := by
+    intro j hj
+    calc x.mag * (2 : ℚ) ^ j < (2 : ℚ) ^ (x.sem.emax + 1) * (2 : ℚ) ^ j :=
+          mul_lt_mul_of_pos_right hhi (by positivity)
+      _ = (2 : ℚ) ^ (x.sem.emax + 1 + j) := (zpow_add₀ (by norm_num) _ _).symm
+      _ ≤ (2 : ℚ) ^ (x.sem.emin - (x.sem.p : Int)) :=
+          zpow_le_zpow_right₀ (by norm_num) (by omega)
+  have hmm := Sem.emin_le_emax hF
+  rcases le_or_gt B k with hk | hk
+  · rw [show max (-B) (min B k) = B by omega,
+      round_huge _ _ _ _ (huge B (le_refl _)), round_huge _ _ _ _ (huge k hk)]
+  · rcases le_or_gt k (-B) with hk' | hk'
+    · rw [show max (-B) (min B k) = -B by omega,
+        round_tiny _ hF _ _ _ (by positivity) (tiny (-B) (le_refl _)),
+        round_tiny _ hF _ _ _ (by positivity) (tiny k hk')]
+    · rw [show max (-B) (min B k) = k by omega]
+
+/-- **`scale(k, rm)` returns the value times `2^k` rounded once under `rm`, for every `k : Int`**
+    (the code clamps `k` to `±(emax - emin + p + 1)` so that `exp + k` stays inside `i64`; the clamp
+    does not change the result). -/
+theorem scale_correct (x : Flt) (k : Int) (rm : RM) (hF : x.sem.WF) (hc : x.Canonical) :
+    (x.scale k rm).toRes = Spec.scaleExact rm k x := by
+  unfold Flt.scale
+  rw [scaleCore_correct x _ rm hF hc, scaleExact_clamp x k _ rm hF hc (le_refl _)]
+
+/-- the largest FP16 value scaled by the extreme `i64` amounts -/
+example : ((⟨FP16, false, 15, 2047, .normal⟩ : Flt).scale (-(2 ^ 63)) .pos).toRes
+    = Spec.scaleExact .pos (-(2 ^ 63)) ⟨FP16, false, 15, 2047, .normal⟩ :=
+  scale_correct _ _ _ (by decide) (by decide)
+
+/-- C19 (integer-overflow checks): for exponent widths up to 61 bits the sum `exp + clamp(k)` formed by
+    `scale` lies strictly inside the `i64` range for every canonical operand and every `k`, and so does
+    the clamp bound itself — the addition that used to wrap (`scale(i64::MAX)`) cannot overflow. -/
+theorem scale_exp_in_i64 (x : Flt) (k : Int) (hF : x.sem.WF) (he : x.sem.e ≤ 61)
+    (hp : (x.sem.p : Int) < 2 ^ 61) (hx : x.cat = .normal) (hc : x.Canonical) :
+    let span := x.sem.scaleSpan
+    let k' := max (-span) (min span k)
+    (-(2 ^ 63 : Int) < -span ∧ span < 2 ^ 63 ∧ -(2 ^ 63 : Int) < x.exp + k' ∧ x.exp + k' < 2 ^ 63) := by
+  intro span k'
+  obtain ⟨h1, h2, _, _, _⟩ := (Flt.canonical_normal hx).mp hc
+  have hr := Sem.range_eq (s := x.sem) (by have := hF.1; omega)
+  have hemax := Sem.emax_eq (s := x.sem) (by have := hF.1; omega)
+  have hemin := Sem.emin_eq x.sem
+  have hpow : ((2 ^ x.sem.e : Nat) : Int) ≤ 2 ^ 61 := by
+    have : 2 ^ x.sem.e ≤ 2 ^ 61 := Nat.pow_le_pow_right (by norm_num) he
+    exact_mod_cast this
+  have hpow1 : ((2 ^ (x.sem.e - 1) : Nat) : Int) ≤ 2 ^ 60 := by
+    have : 2 ^ (x.sem.e - 1) ≤ 2 ^ 60 := Nat.pow_le_pow_right (by norm_num) (by omega)
+    exact_mod_cast this
+  have hpos1 : (0 : Int) < ((2 ^ (x.sem.e - 1) : Nat) : Int) := by positivity
+  have hspan : span = ((2 ^ x.sem.e : Nat) : Int) - 3 + (x.sem.p : Int) + 1 := by
+    show x.sem.emax - x.sem.emin + (x.sem.p : Int) + 1 = _
+    rw [hr]
+  have hp0 : (0 : Int) ≤ (x.sem.p : Int) := Int.natCast_nonneg _
+  have hpos : (0 : Int) < ((2 ^ x.sem.e : Nat) : Int) := by positivity
+  refine ⟨by omega, by omega, ?_, ?_⟩
+  · have : -span ≤ k' := le_max_left _ _
+    omega
+  · have : k' ≤ span := max_le (by omega) (min_le_left _ _)
+    omega
 
 /-- The executable specification's clamp of `k` to `±scaleBound` does not change the result:
     beyond it both sides are the same deep overflow / deep underflow. -/
